@@ -229,6 +229,23 @@ func streamRobust() {
 		}
 		add(robustCase{kind: "flag-random", args: args, stdin: fs.in})
 	}
+	// a piece without any instance together with arguments that are nonsense: the arguments are checked all the same
+	{
+		dir := filepath.Join(outDir, "robust-empty")
+		must(os.MkdirAll(dir, 0o755))
+		cyc := filepath.Join(dir, "cyc.yml")
+		must(os.WriteFile(cyc, []byte("- name: X\n  meta: {display: x}\n  extends: X\n"), 0o644))
+		badAttr := filepath.Join(dir, "attr.yml")
+		must(os.WriteFile(badAttr, []byte("- name: Q\n  degree: zz\n"), 0o644))
+		for _, in := range []string{"[]", "", "~", "[]\n", "# nothing\n"} {
+			for _, a := range [][]string{{"write", "conv", "-c", "nosuch"}, {"write", "conv", "-c", "cmt", "--chord", cyc}, {"write", "conv", "-c", "cmt", "--track", "0"},
+				{"write", "conv", "-c", "cmt", "--attr", badAttr}, {"write", "conv", "-c", "cmt", "--chord", "/nonexistent"}, {"write", "event", "--chord", cyc},
+				{"write", "parse", "--chord", cyc}, {"write", "--chord", cyc}, {"write", "event", "--track", "0"}} {
+				// (a nonsense --key/--velocity/--meter override has no instance to apply to here and is not looked at)
+				add(robustCase{kind: "nonsense-args-empty-piece", args: a, stdin: []byte(in), refuse: true})
+			}
+		}
+	}
 	// arbitrary bytes as dictionary files
 	for i := 0; i < pick(150, 3000); i++ {
 		a, c := genDictBytes(r)
